@@ -124,8 +124,16 @@ class FetchAttribute(Parseable[bytes]):
             self.headers = frozenset(hdr.upper() for hdr in headers) \
                 if headers else None
 
+        def _key(self) -> tuple[Any, ...]:
+            return (tuple(self.parts), self.specifier, self.headers)
+
         def __hash__(self) -> int:
-            return hash((tuple(self.parts), self.specifier, self.headers))
+            return hash(self._key())
+
+        def __eq__(self, other: Any) -> bool:
+            if isinstance(other, FetchAttribute.Section):
+                return self._key() == other._key()
+            return NotImplemented
 
     _attrname_pattern = re.compile(br' *([^\s\[<()]+)')
     _section_start_pattern = re.compile(br' *\[ *')
@@ -225,17 +233,20 @@ class FetchAttribute(Parseable[bytes]):
         self._raw = raw = b''.join(parts)
         return raw
 
+    def _key(self) -> tuple[Any, ...]:
+        return (self.value, self.section, self.partial)
+
     def __hash__(self) -> int:
-        return hash((self.value, self.section, self.partial))
+        return hash(self._key())
 
     def __eq__(self, other: Any) -> bool:
         if isinstance(other, FetchAttribute):
-            return hash(self) == hash(other)
+            return self._key() == other._key()
         return super().__eq__(other)
 
     def __ne__(self, other: Any) -> bool:
         if isinstance(other, FetchAttribute):
-            return hash(self) != hash(other)
+            return self._key() != other._key()
         return super().__ne__(other)
 
     def __lt__(self, other: Any) -> bool:
